@@ -1,4 +1,119 @@
-(* placeholder until C20/Proofs.v lands: nothing is claimed proved yet *)
-From V Require Import C20.Glue.
-Theorem c20_placeholder : True. Proof. exact I. Qed.
-Print Assumptions c20_placeholder.
+(* C20 - nostd vocabulary types behave like the std types they stand in for.
+   Every theorem is proved in coq/C20/Proofs*.v; this file only restates them and prints their assumptions.
+   The model (C20/Model.v) mirrors the nostd headers; the SPEC (C20/Spec.v) states what the std counterparts do. *)
+From V Require Import C20.Glue C20.ProofsPtrBase C20.ProofsPtrOps C20.ProofsPtr C20.ProofsPtrSpec
+                      C20.ProofsSV C20.ProofsSVSpec C20.ProofsVar C20.ProofsMeets.
+From Coq Require Import Permutation.
+
+(* string_view::compare is the unsigned lexicographic order: a total order, consistent with == and < > *)
+Theorem compare_total_order :
+  (forall a b, sv_compare a b = (-1)%Z \/ sv_compare a b = 0%Z \/ sv_compare a b = 1%Z) /\
+  (forall a b, sv_compare a b = 0%Z <-> a = b) /\
+  (forall a b, sv_eq a b = true <-> sv_compare a b = 0%Z) /\
+  (forall a b, sv_compare b a = (- sv_compare a b)%Z) /\
+  (forall a b c, (sv_compare a b < 0)%Z -> (sv_compare b c < 0)%Z -> (sv_compare a c < 0)%Z) /\
+  (forall a b c, (sv_compare a b <= 0)%Z -> (sv_compare b c <= 0)%Z -> (sv_compare a c <= 0)%Z) /\
+  (forall a b, sv_lt a b = true <-> (sv_compare a b < 0)%Z) /\
+  (forall a b, sv_gt a b = true <-> sv_lt b a = true) /\
+  (forall a b, sv_compare a b = cmp_sign (lex_cmp a b)).
+Proof. exact compare_total_order_all. Qed.
+Print Assumptions compare_total_order.
+
+(* hashing is consistent with equality *)
+Theorem hash_respects_eq : forall (h : bytes -> N) a b, sv_eq a b = true -> h a = h b.
+Proof. exact hash_respects_eq_all. Qed.
+Print Assumptions hash_respects_eq.
+
+(* find(ch, pos): least index >= pos holding ch, npos exactly when there is none *)
+Theorem find_spec : forall s ch pos, (len s < npos)%N ->
+  let r := sv_find s ch pos in
+  (r <> npos -> (pos <= r < len s)%N /\ nth_is s (N.to_nat r) ch = true /\
+                forall j, (pos <= N.of_nat j)%N -> (N.of_nat j < r)%N -> nth_is s j ch = false) /\
+  (r = npos -> forall j, (pos <= N.of_nat j)%N -> nth_is s j ch = false).
+Proof. exact find_spec_all. Qed.
+Print Assumptions find_spec.
+
+(* substr(pos, n): out_of_range exactly when pos > size(), otherwise the slice clamped to the end *)
+Theorem substr_spec : forall s pos n,
+  (sv_substr s pos n = None <-> (len s < pos)%N) /\
+  (forall t, sv_substr s pos n = Some t ->
+     N.of_nat (length t) = N.min n (len s - pos) /\
+     forall i, i < length t -> nth_error t i = nth_error s (N.to_nat pos + i)).
+Proof. exact substr_spec_all. Qed.
+Print Assumptions substr_spec.
+
+(* span: the index-checked slice of its buffer, with write-through *)
+Theorem span_slice : forall buf off cnt, off + cnt <= length buf ->
+  sp_elems buf off cnt = firstn cnt (skipn off buf) /\
+  length (sp_elems buf off cnt) = cnt /\
+  (forall i, i < cnt -> nth_error (sp_elems buf off cnt) i = nth_error buf (off + i)) /\
+  (forall i v, i < cnt -> sp_write buf off i v = firstn (off + i) buf ++ [v] ++ skipn (S (off + i)) buf) /\
+  (forall i v j, i < cnt -> j <> off + i -> nth_error (sp_write buf off i v) j = nth_error buf j).
+Proof. exact span_slice_all. Qed.
+Print Assumptions span_slice.
+
+(* unique_ptr / shared_ptr: for EVERY sequence of operations (make, copy, move, copy-/move-assign incl. self
+   assignment, reset, release/adopt, swap incl. self swap, unique->shared, destroy handle) *)
+Theorem ownership_exactly_one_destruction : forall ops,
+  let st := run_ops ops in
+  bad st = false /\
+  (forall i o, i < 10 -> hs st i = Ptr o -> o < nxt st /\ o_alive (objs st o) = true) /\
+  (forall o, o < nxt st -> (o_alive (objs st o) = true <-> owned (hs st) o = true)) /\
+  live_count st = length (filter (owned (hs st)) (seq 0 (nxt st))) /\
+  NoDup (plog st) /\
+  (forall o, In o (plog st) <-> o < nxt st /\ owned (hs st) o = false) /\
+  (forall op, exists D, plog (pnext st op) = plog st ++ D /\ NoDup D /\
+              forall o, In o D <-> owned (hs st) o = true /\ owned (hs (pnext st op)) o = false) /\
+  bad (teardown st) = false /\ Permutation (plog (teardown st)) (seq 0 (nxt st)) /\ live_count (teardown st) = 0.
+Proof. exact ownership_exactly_one_destruction_all. Qed.
+Print Assumptions ownership_exactly_one_destruction.
+
+(* variant: holds_alternative / get / get_if / visit agree with index(); valueless throws *)
+Theorem variant_get_visit :
+  (forall v i, vholds v i = true <-> vindex v = i) /\
+  (forall v i, vget v i = Some v <-> (vindex v = i /\ v <> VNone)) /\
+  (forall v i, vget v i = None <-> (vindex v <> i \/ v = VNone)) /\
+  (forall v i x, vget v i = Some x -> x = v) /\
+  (forall R (fm : R) fb fi fs fc,
+     vvisit fm fb fi fs fc VMono = Some fm /\
+     (forall b, vvisit fm fb fi fs fc (VBool b) = Some (fb b)) /\
+     (forall z, vvisit fm fb fi fs fc (VInt z) = Some (fi z)) /\
+     (forall s, vvisit fm fb fi fs fc (VStr s) = Some (fs s)) /\
+     (forall z, vvisit fm fb fi fs fc (VCnt z) = Some (fc z)) /\
+     vvisit fm fb fi fs fc VNone = None) /\
+  (forall R (fm : R) fb fi fs fc v, vvisit fm fb fi fs fc v = None <-> vget v (vindex v) = None) /\
+  (forall v, ((0 <= vindex v <= 4)%Z /\ v <> VNone) \/ (vindex v = (-1)%Z /\ v = VNone)).
+Proof. exact variant_get_visit_all. Qed.
+Print Assumptions variant_get_visit.
+
+(* assignment / emplace change the held alternative of exactly that variant; live payload instances are counted *)
+Theorem variant_assign : forall st d x, d < NV ->
+  let st' := fst (vstep st (VSet d x)) in
+  st' d = x /\ vindex (st' d) = vindex x /\ (forall j, j <> d -> st' j = st j) /\
+  fst (vstep st (VEmp d x)) d = x /\
+  vlive st' = length (filter (fun i => is_cnt (st' i)) (seq 0 NV)).
+Proof. exact variant_assign_all. Qed.
+Print Assumptions variant_assign.
+
+(* converting construction: the faithful model violates "same alternative as std::variant" (finding F24) ... *)
+Theorem variant_conv_refuted : exists k, k < length conv_table /\ spec_conv k (conv_obs k) <> [].
+Proof. exact ProofsVar.variant_conv_refuted. Qed.
+Print Assumptions variant_conv_refuted.
+(* ... and agrees on every row of the table where a const char* argument meets a const char* alternative or is no pointer *)
+Theorem variant_conv_partial : forall k alts arg, nth_error conv_table k = Some (alts, arg) ->
+  (arg = CCStr -> In CCStr alts) -> spec_conv k (conv_obs k) = [].
+Proof. exact ProofsVar.variant_conv_partial. Qed.
+Print Assumptions variant_conv_partial.
+
+(* function_ref: calling through the reference is applying the referenced callable (state changes included) *)
+Theorem function_ref_application : forall st k a b, f_bound st = Some k -> k < 3 ->
+  fexec st (FCall a b) = (fst (fapply st k a b), [TZ (snd (fapply st k a b))]) /\
+  fexec st (FCopyCall a b) = fexec st (FCall a b) /\
+  f_bound (fst (fapply st k a b)) = Some k.
+Proof. exact function_ref_application_all. Qed.
+Print Assumptions function_ref_application.
+
+(* the central theorem: on every well-formed case the SPEC checker accepts the model's observation *)
+Theorem model_meets_spec : forall l c, parse_case l = Some c -> wf_case c -> run_spec l (run_model l) = [].
+Proof. exact model_meets_spec_all. Qed.
+Print Assumptions model_meets_spec.
